@@ -201,7 +201,7 @@ impl Property for C16 {
         ]
     }
     fn cases(tier: Tier) -> u64 {
-        tier.pick(60_000, 2_000_000)
+        tier.pick(180_000, 2_000_000)
     }
     fn strategy(_tier: Tier) -> BoxedStrategy<Spec> {
         prop_oneof![
